@@ -1,6 +1,7 @@
 (* C05 — record files: frame conditions of the operations of Model/C05.v, torn tails, histories. *)
 From Coq Require Import String.
 From Verif Require Import Base.Common Base.ListX Base.RecFile Model.C05.
+From Verif Require Export Proofs.C05_sparse.
 From Verif Require Model.C01.
 From Coq Require Import ZifyBool.
 Ltac Zify.zify_post_hook ::= Z.div_mod_to_equations.
@@ -488,3 +489,51 @@ Example refused_nonvacuous :
      ((0, 0), repeat 1 4 ++ repeat 5 4 ++ repeat 3 4)] /\
   hfinal 4 hs f = repeat 1 4 ++ repeat 5 4 ++ repeat 3 4.
 Proof. vm_compute. split; reflexivity. Qed.
+
+(* ------------------------------------------------------------------ sparse files: the read side *)
+Lemma idx_loop_range mx desc i : forall fuel idx, 0 <= idx ->
+  In i (get_records_idx_loop fuel idx mx desc) -> 1 <= i <= mx.
+Proof.
+  induction fuel as [|fuel IH]; intros idx Hidx Hin; [destruct Hin|].
+  cbn [get_records_idx_loop] in Hin.
+  destruct ((idx =? 0) || (mx <? idx)) eqn:Hc; [destruct Hin|].
+  apply orb_false_iff in Hc. destruct Hc as [H0 Hm]. apply Z.eqb_neq in H0. apply Z.ltb_ge in Hm.
+  destruct Hin as [He|Hin]; [lia|].
+  apply IH in Hin; [exact Hin|]. destruct desc; lia.
+Qed.
+
+Lemma sp_get_records_represents f s start n desc : represents FH_SZ f s ->
+  sp_get_records start n desc s = get_records FH_SZ start n desc f.
+Proof.
+  intros HR. rewrite get_records_by_index. unfold sp_get_records.
+  rewrite (sp_count_represents _ _ _ HR).
+  destruct (get_records_idx start n desc (num_records FH_SZ f)) as [l|e|] eqn:E; cbn [rmap]; try reflexivity.
+  f_equal. apply map_ext_in. intros i Hi. f_equal.
+  unfold get_records_idx in E. destruct (start <? 1) eqn:Hs; [discriminate|]. destruct (n <? 0); [discriminate|].
+  injection E as E. subst l. apply idx_loop_range in Hi; [|lia].
+  replace (i - 1) with (Z.of_nat (Z.to_nat (i - 1))) at 1 by lia.
+  apply sp_record_represents; [unfold FH_SZ; lia|exact HR|].
+  apply record_in_range; [unfold FH_SZ; lia|]. unfold num_records in Hi. lia.
+Qed.
+
+Lemma sp_modify_represents f s idx name a : represents FH_SZ f s ->
+  match modify_dir_lite idx name a f, sp_modify idx name a s with
+  | ROk f', ROk s' => represents FH_SZ f' s'
+  | RErr e, RErr e' => e = e'
+  | _, _ => False
+  end.
+Proof.
+  intros HR. pose proof HR as [HL _]. unfold modify_dir_lite, sp_modify. rewrite <- HL.
+  destruct (lenZ f <? Z.of_nat FH_SZ * idx) eqn:H1; [reflexivity|].
+  destruct (idx - 1 <? 0) eqn:H2; [reflexivity|].
+  apply Z.ltb_ge in H1. apply Z.ltb_ge in H2.
+  assert (Hin : ((Z.to_nat (idx - 1) + 1) * FH_SZ <= length f)%nat) by (unfold lenZ in H1; nia).
+  replace (sp_record FH_SZ (idx - 1) s) with (record FH_SZ (Z.to_nat (idx - 1)) f).
+  2:{ symmetry. replace (idx - 1) with (Z.of_nat (Z.to_nat (idx - 1))) at 1 by lia.
+      apply sp_record_represents; [unfold FH_SZ; lia|exact HR|exact Hin]. }
+  set (r := record FH_SZ (Z.to_nat (idx - 1)) f).
+  destruct (negb (cstrcmp (read_at OFF_FILENAME LEN_FILENAME r) name =? 0)); [reflexivity|].
+  assert (Hr : length r = FH_SZ) by (unfold r, record; apply read_at_length; lia).
+  destruct (apply_modify_props a r Hr) as [Hlen _].
+  apply write_represents; [unfold FH_SZ; lia|lia|lia|exact HR].
+Qed.
